@@ -43,7 +43,7 @@ Section BufSpec.
     | Stack => nth_error (rev t) (Z.to_nat i)
     end.
 
-  Definition spec_step (k : kind) (c : Z) (t : bseq) (o : bop) : bseq * bout :=
+  Definition bspec_step (k : kind) (c : Z) (t : bseq) (o : bop) : bseq * bout :=
     match o with
     | BCapacity => (t, VZ c)
     | BSize => (t, VZ (blen t))
@@ -72,18 +72,18 @@ Section BufSpec.
     | _ => True
     end.
 
-  Fixpoint spec_run (k : kind) (c : Z) (t : bseq) (ops : list bop) : bseq * list bout :=
+  Fixpoint bspec_run (k : kind) (c : Z) (t : bseq) (ops : list bop) : bseq * list bout :=
     match ops with
     | [] => (t, [])
-    | o :: r => let '(t', u) := spec_step k c t o in
-                let '(t'', us) := spec_run k c t' r in (t'', u :: us)
+    | o :: r => let '(t', u) := bspec_step k c t o in
+                let '(t'', us) := bspec_run k c t' r in (t'', u :: us)
     end.
 
   (* the sequence is bounded: no operation makes it longer than the capacity *)
-  Lemma spec_step_bounded k c t o : 1 <= c -> blen t <= c -> blen (fst (spec_step k c t o)) <= c.
+  Lemma bspec_step_bounded k c t o : 1 <= c -> blen t <= c -> blen (fst (bspec_step k c t o)) <= c.
   Proof.
     unfold blen. intros Hc Ht.
-    destruct o; cbn [spec_step fst]; try assumption; try (cbn [length]; lia).
+    destruct o; cbn [bspec_step fst]; try assumption; try (cbn [length]; lia).
     - unfold blen. destruct (Z.ltb_spec (Z.of_nat (length t)) c); [|assumption].
       rewrite app_length; cbn [length]; lia.
     - unfold blen. destruct (Z.ltb_spec (Z.of_nat (length t)) c); rewrite app_length; cbn [length]; [lia|].
@@ -94,12 +94,12 @@ Section BufSpec.
         rewrite rev_length. cbn [length] in L. lia.
   Qed.
 
-  Lemma spec_run_bounded k c ops : forall t, 1 <= c -> blen t <= c -> blen (fst (spec_run k c t ops)) <= c.
+  Lemma bspec_run_bounded k c ops : forall t, 1 <= c -> blen t <= c -> blen (fst (bspec_run k c t ops)) <= c.
   Proof.
-    induction ops as [|o r IH]; intros t Hc Ht; cbn [spec_run fst]; [assumption|].
-    pose proof (spec_step_bounded k c t o Hc Ht) as B.
-    destruct (spec_step k c t o) as [t' u]. cbn [fst] in B.
-    specialize (IH t' Hc B). destruct (spec_run k c t' r) as [t'' us]. exact IH.
+    induction ops as [|o r IH]; intros t Hc Ht; cbn [bspec_run fst]; [assumption|].
+    pose proof (bspec_step_bounded k c t o Hc Ht) as B.
+    destruct (bspec_step k c t o) as [t' u]. cbn [fst] in B.
+    specialize (IH t' Hc B). destruct (bspec_run k c t' r) as [t'' us]. exact IH.
   Qed.
 End BufSpec.
 
